@@ -4,6 +4,7 @@ import Driver.E2E
 import Driver.Sched
 import Driver.Flow
 import Driver.Hpack
+import Driver.Frame
 import FpVerif.Spec.JA3
 import FpVerif.Spec.Capture
 import FpVerif.Spec.H2Fp
@@ -283,7 +284,7 @@ def handle (cmd : String) (args : List String) : String :=
   | "rwspec09", toks => (rwSpec09 toks).getD "bad-op"
   | "rwspec15", toks => (rwSpec15 toks).getD "bad-op"
   | "h2marshal", toks => (h2marshal toks).getD "bad-op"
-  | c, a => (hpackOps c a).getD "bad-op"
+  | c, a => ((hpackOps c a).orElse fun _ => frameOps c a).getD "bad-op"
 
 partial def loop (hin : IO.FS.Stream) (hout : IO.FS.Stream) : IO Unit := do
   let line ← hin.getLine
